@@ -10,12 +10,16 @@
     (`metadata_block_roundtrip`, `colours_block_roundtrip`: unconditional; `editor_…`, `difficulty_…`, `general_…`,
     `events_block_roundtrip`: for every lawful number codec);
   * file level for those sections: `records_roundtrip`.
-  Still only statements (evaluated by the `rt` oracle and the three-way `rt` correspondence): hit objects, samples,
-  timing points (layers 3–5 of DESIGN 5.2) and hence the full `roundtrip_statement`.
+  * layer 3 in part: `circle_rt`, `spinner_rt`, `hold_rt` (one line, any decoder state); layer 4 in part:
+    `samples_bank_info_rt` (`get_sample_bank` against `read_custom_sample_banks`).
+  Still only statements (evaluated by the `rt` oracle and the three-way `rt` correspondence): sliders (path string, node
+  samples), the sample list itself (names and banks through `convert_sound_type`), timing points (layer 5 of DESIGN 5.2),
+  the map-level assembly over all objects, and hence the full `roundtrip_statement`.
 -/
 import RosuModel.Model.Encode
 import RosuModel.Props.C11
 import RosuModel.Lemmas.RtFile
+import RosuModel.Lemmas.RtObjects
 namespace Rosu.C02
 open Rosu Encode EncodeLines C11
 
@@ -144,6 +148,54 @@ theorem records_roundtrip (LF : CodecLaws F RF) (LP : CodecLaws P RP) (LI : IntP
   RtFile.decoded_records_roundtrip LF LP LI m hm t T H h hT hH sT sH
 
 end
+
+/-! ### layer 3 (part): circle, spinner and hold lines -/
+
+section
+variable {F P : Type} [Scalar F] [Scalar P] [Cvt P F] [Trig F] [Trig P] {RF : F → Prop} {RP : P → Prop}
+
+/-- **circle_rt**: the line written for a circle decodes, in any state, to a circle at the same start time and position,
+with the same combo offset when it starts a combo, `new_combo` or-ed with the decoder's forcing rule (first object /
+after a spinner), and the samples derived from the same hit-sound byte and bank info (`samples_bank_info_rt`). -/
+theorem circle_rt (LF : CodecLaws F RF) (LP : CodecLaws P RP) (mode : GameMode) (h : HitObject F P) (c : HitObjectCircle P)
+    (hk : h.kind = .circle c) (hr : RtObjects.RepCircle RF RP mode h c) (st : HOCore F P) :
+    encodeObject mode h = .ok (RtObjects.circleLine mode h c ++ EncodeLines.nl) ∧
+    parseHitObjectLine mode st (trimEnd (RtObjects.circleLine mode h c)) =
+      (RtObjects.pushed st 1 h.startTime
+        (.circle ⟨c.pos, st.lastObject.isNone || lastWasSpinner st || c.newCombo, if c.newCombo then c.comboOffset else 0⟩)
+        (RtObjects.decodedSamples h.samples mode), true) :=
+  ⟨(RtObjects.circle_line_roundtrip LF LP mode h c hk hr st).1, (RtObjects.circle_line_roundtrip LF LP mode h c hk hr st).2.2.2⟩
+
+/-- **spinner_rt**: same start time, duration (through `max(end − start, 0)`, a hypothesis on the two values) and
+`new_combo`; the position is always the centre. -/
+theorem spinner_rt (LF : CodecLaws F RF) (LP : CodecLaws P RP) (mode : GameMode) (h : HitObject F P) (sp : HitObjectSpinner F P)
+    (hk : h.kind = .spinner sp) (hr : RtObjects.RepSpinner RF RP mode h sp) (st : HOCore F P) :
+    encodeObject mode h = .ok (RtObjects.spinnerLine mode h sp ++ EncodeLines.nl) ∧
+    parseHitObjectLine mode st (trimEnd (RtObjects.spinnerLine mode h sp)) =
+      (RtObjects.pushed st 8 h.startTime (.spinner ⟨⟨(512 : P) / 2, (384 : P) / 2⟩, sp.duration, sp.newCombo⟩)
+        (RtObjects.decodedSamples h.samples mode), true) :=
+  ⟨(RtObjects.spinner_line_roundtrip LF LP mode h sp hk hr st).1, (RtObjects.spinner_line_roundtrip LF LP mode h sp hk hr st).2.2.2⟩
+
+/-- **hold_rt**: same start time, column coordinate and duration (through `max(start, end) − start`). -/
+theorem hold_rt (LF : CodecLaws F RF) (LP : CodecLaws P RP) (mode : GameMode) (h : HitObject F P) (ho : HitObjectHold F P)
+    (hk : h.kind = .hold ho) (hr : RtObjects.RepHold RF RP mode h ho) (st : HOCore F P) :
+    encodeObject mode h = .ok (RtObjects.holdLine mode h ho ++ EncodeLines.nl) ∧
+    parseHitObjectLine mode st (trimEnd (RtObjects.holdLine mode h ho)) =
+      (RtObjects.pushed st 128 h.startTime (.hold ⟨ho.posX, ho.duration⟩) (RtObjects.decodedSamples h.samples mode), true) :=
+  ⟨(RtObjects.hold_line_roundtrip LF LP mode h ho hk hr st).1, (RtObjects.hold_line_roundtrip LF LP mode h ho hk hr st).2.2.2⟩
+
+end
+
+/-- **samples_bank_info_rt** (layer 4, the bank-info half): `read_custom_sample_banks` applied to what `get_sample_bank`
+writes gives back the normal bank, the addition bank (falling back to the normal bank when `None`), the custom bank
+index, the volume (negative read as 0) and the file name — no hypothesis on floats. -/
+theorem samples_bank_info_rt (samples : List HitSampleInfo) (mode : GameMode) (hs : RtObjects.RepSamples samples mode) :
+    ({} : SampleBankInfo).readCustomSampleBanks (splitOn ':' (getSampleBank samples false mode)) false =
+      (RtObjects.bankInfoFor samples mode, true) := by
+  rw [RtObjects.getSampleBank_eq]
+  exact RtObjects.read_bankStr _ _ _ _ _ hs.file.noColon hs.custom hs.volume
+
+example := samples_bank_info_rt RtObjects.sampleSamples GameMode.mania (RtObjects.sampleSamples_rep _)
 
 /-- the full property, not yet a theorem: for a decoded map with chronological lines, the re-decoded map agrees
 on the whole preserved view — here stated for the parts not covered by `records_roundtrip`: the hit objects (kinds,
